@@ -54,3 +54,20 @@ func VerifPacketizerTimestamp(p Packetizer) (uint32, bool) {
 
 	return pp.Timestamp, true
 }
+
+// VerifSetSequencerState puts a sequencer of this package into the state
+// "last issued value = last, rollovers so far = rollOverCount", so that
+// monitors can observe wraps of the rollover count at magnitudes no
+// black-box run can reach. It reports false for any other Sequencer.
+func VerifSetSequencerState(s Sequencer, last uint16, rollOverCount uint64) bool {
+	ss, ok := s.(*sequencer)
+	if !ok {
+		return false
+	}
+	ss.mutex.Lock()
+	defer ss.mutex.Unlock()
+	ss.sequenceNumber = last
+	ss.rollOverCount = rollOverCount
+
+	return true
+}
